@@ -786,7 +786,42 @@ func genTaggedLabelGrid(p func(string, ...any)) {
 	}
 }
 
+// a well-formed byte string whose CONTENT is a truncated or over-long protected map: every prefix of
+// several protected contents (and each with one byte appended) in every decoder that reads a
+// protected bucket — an error, never a panic
+func genTruncGrid(p func(string, ...any)) {
+	payload := []byte{0x50}
+	contents := [][]byte{
+		wMap(wInt(1), wInt(-7)).enc(), wMap(wInt(1), wInt(-35)).enc(), wMap(wInt(1), wInt(-257)).enc(), wMap(wInt(1), wInt(-65537)).enc(),
+		wMap(wInt(1), wInt(-37), wInt(4), wBstr([]byte{0x31, 0x32})).enc(),
+		wMap(wInt(1), wInt(-8), wInt(2), wArr(wInt(4)), wInt(4), wBstr([]byte{1})).enc(),
+		wMap(wInt(1), wTstr("ES256")).enc(), wMap(wTstr("a"), wInt(1000000)).enc(),
+		wMap(wInt(3), wTstr("a/b"), wInt(15), wMap(wInt(1), wTstr("iss"))).enc(),
+	}
+	for _, c := range contents {
+		var variants [][]byte
+		for k := 0; k <= len(c); k++ {
+			variants = append(variants, c[:k])
+		}
+		variants = append(variants, append(append([]byte{}, c...), 0x00), append(append([]byte{}, c...), 0xff))
+		for _, v := range variants {
+			pb := wBstr(v)
+			sigB := wBstr([]byte{1})
+			p("dec ph %s", hexs(pb.enc()))
+			p("dec s1 %s", hexs(wTag(18, wArr(pb.clone(), wMap(), wBstr(payload), sigB)).enc()))
+			p("dec s1u %s", hexs(wArr(pb.clone(), wMap(), wBstr(payload), sigB.clone()).enc()))
+			p("dec sig %s", hexs(wArr(pb.clone(), wMap(), sigB.clone()).enc()))
+			p("dec csig %s", hexs(wArr(pb.clone(), wMap(), sigB.clone()).enc()))
+			p("dec sm %s", hexs(wTag(98, wArr(pb.clone(), wMap(), wBstr(payload), wArr(wArr(wBstr(wMap(wInt(1), wInt(-7)).enc()), wMap(), sigB.clone())))).enc()))
+			p("dec sm %s", hexs(wTag(98, wArr(wBstr([]byte{}), wMap(), wBstr(payload), wArr(wArr(pb.clone(), wMap(), sigB.clone())))).enc()))
+			p("dec s1 %s", hexs(wTag(18, wArr(wBstr(wMap(wInt(1), wInt(-7)).enc()), wMap(wInt(11), wArr(pb.clone(), wMap(), sigB.clone())), wBstr(payload), sigB.clone())).enc()))
+			p("hev %s T:-7:1", hexs(wTag(18, wArr(pb.clone(), wMap(), wBstr(make([]byte, 32)), sigB.clone())).enc()))
+		}
+	}
+}
+
 func genTbsGrid(p func(string, ...any)) {
+	genTruncGrid(p)
 	genTagGrid(p)
 	genTaggedLabelGrid(p)
 	genIntTextGrid(p)
